@@ -50,11 +50,11 @@ func (l *c15Limiter) Take() time.Time {
 }
 
 type c15RW struct {
-	mu      sync.Mutex
-	log     *[]byte
-	writes  int
-	reads   int
-	failAt  map[int]bool
+	mu     sync.Mutex
+	log    *[]byte
+	writes int
+	reads  int
+	failAt map[int]bool
 }
 
 func (w *c15RW) WritePacketData(p []byte) error {
@@ -77,17 +77,17 @@ func (w *c15RW) ReadPacketData() ([]byte, *gopacket.CaptureInfo, error) {
 }
 
 type c15AlgCase struct {
-	Ops     string `json:"ops"`      // W write, R read, F failing write
-	Workers int    `json:"workers"`  // scanner part
+	Ops     string `json:"ops"`     // W write, R read, F failing write
+	Workers int    `json:"workers"` // scanner part
 	Scans   int    `json:"scans"`
 	FailMod int    `json:"scan_fails_every"`
 }
 
 type c15CountScanner struct {
-	lim      *c15Limiter
-	started  int64
-	bad      int64
-	failMod  int
+	lim     *c15Limiter
+	started int64
+	bad     int64
+	failMod int
 }
 
 func (s *c15CountScanner) Scan(ctx context.Context, r *scan.Request) (scan.Result, error) {
